@@ -109,6 +109,17 @@ type Sched struct {
 	quiet     bool
 	alive     int // controlled threads that have not finished
 	fastSteps int
+	switches  int // number of times the running thread changed
+}
+
+// SwitchCount returns how many times the scheduler has switched to a different thread so
+// far in the active execution. A harness can use it to tell whether a call ran without
+// any other thread taking a step in between.
+func SwitchCount() int {
+	if s := active.Load(); s != nil {
+		return s.switches
+	}
+	return 0
 }
 
 // SetExplore switches exploration of scheduling decisions on or off for the active
@@ -352,6 +363,7 @@ func (s *Sched) Run() Result {
 			t.selPick = t.selReady[0]
 		}
 		if s.current != t {
+			s.switches++
 			// everyone who yielded before may run again after another thread steps
 			for _, o := range s.threads {
 				if o != t {
